@@ -55,7 +55,9 @@ def SealFits (cfg : Cfg) (now : Nat) : Action → Prop
 
 /-- side conditions of one history step: sealing in range, and the 96-bit session-id space is not exhausted -/
 def OpOK {Wire : Type} (cfg : Cfg) (s : Sys Wire) : SysOp → Prop
-  | .call _ _ script _ => (∀ a ∈ script, SealFits cfg s.W.env.now a) ∧ s.W.env.sidCtr + script.length ≤ 256 ^ 12
+  | .call _ _ script _ =>
+    (∀ a ∈ script, SealFits cfg s.W.env.now a) ∧ s.W.env.sidCtr + script.length ≤ 256 ^ 12 ∧
+      (∀ a ∈ script, a.isApi = true)   -- nothing ends a session behind the client's back (else: `C27_no_orphan`, `C27_close_clears`)
   | _ => True
 
 def RunOK {Wire : Type} [DecidableEq Wire] (C : Codec Wire) (cfg : Cfg) (wk : Nat) : Sys Wire → List SysOp → Prop
